@@ -162,7 +162,8 @@ Record fstate := {
   s_children : list obs;               (* child labels in insertion order, canonical form *)
   s_cached   : option inputs;          (* Node._cached_inputs *)
   s_out      : option table;           (* None = NOT_DATA on the output channel(s) *)
-  s_failed   : bool
+  s_failed   : bool;
+  s_cache    : bool                    (* the instance's use_cache (starts as the class's, may be re-assigned) *)
 }.
 
 Fixpoint list_eqb {A} (eqb : A -> A -> bool) (a b : list A) : bool :=
@@ -201,7 +202,7 @@ Definition df_child : obs := OL [OS "dataframe"].
 
 Definition init_state (c : cfg) : fstate :=
   {| s_in := init_inputs c; s_children := map in_child (in_labels c);
-     s_cached := None; s_out := None; s_failed := false |}.
+     s_cached := None; s_out := None; s_failed := false; s_cache := c_cache c |}.
 
 (* for_node(...): class creation, then the instance *)
 Definition create (c : cfg) : res fstate :=
@@ -209,7 +210,7 @@ Definition create (c : cfg) : res fstate :=
 
 Definition assign (st : fstate) (l : string) (v : ival) : fstate :=
   {| s_in := supd l (Some v) (s_in st); s_children := s_children st; s_cached := s_cached st;
-     s_out := s_out st; s_failed := s_failed st |}.
+     s_out := s_out st; s_failed := s_failed st; s_cache := s_cache st |}.
 Definition assign_all (st : fstate) (a : list (string * ival)) : fstate :=
   fold_left (fun s lv => assign s (fst lv) (snd lv)) a st.
 
@@ -338,7 +339,7 @@ Definition default_of (c : cfg) (l : string) : option Z :=
 (* Node.cache_hit (under use_cache): never while failed; the key is written only by a run
    that succeeded (Node._run_finally) *)
 Definition hit (c : cfg) (st : fstate) : bool :=
-  c_cache c && negb (s_failed st) &&
+  s_cache st && negb (s_failed st) &&
   match s_cached st with Some ci => inputs_eqb (s_in st) ci | None => false end.
 
 Definition run (c : cfg) (order : list nat) (st : fstate) : fstate * outcome :=
@@ -361,13 +362,14 @@ Definition run (c : cfg) (order : list nat) (st : fstate) : fstate * outcome :=
             (* _collect_output_as_lists: a second child with the same label is refused;
                the sub-graph is left half built, remove_child/add_child cleared the cache *)
             ({| s_in := i; s_children := body_children (map in_child (in_labels c)) maps;
-                s_cached := None; s_out := s_out st; s_failed := false |},
+                s_cached := None; s_out := s_out st; s_failed := false; s_cache := s_cache st |},
              Raised AttributeError false [])
           else
-            (* rebuilt sub-graph; remove_child/add_child cleared the cache *)
+            (* rebuilt sub-graph; Composite.remove_child/add_child forgot the remembered inputs --
+               whether or not use_cache is on at the moment *)
             let finish (out : option table) (cached : option inputs) (failed : bool) :=
               {| s_in := i; s_children := build_children c maps; s_cached := cached;
-                 s_out := out; s_failed := failed |} in
+                 s_out := out; s_failed := failed; s_cache := s_cache st |} in
             let argso := map (args_of c i) maps in
             (* looped labels the index maps do not mention (see index_maps) ... *)
             let missing := dropped c maps in
@@ -386,7 +388,7 @@ Definition run (c : cfg) (order : list nat) (st : fstate) : fstate * outcome :=
                   let slots := collect n (fun r => nth r rows []) (sched n order) in
                   let t := table_of c (map (fun o => match o with Some r => r | None => [] end) slots) in
                   (* Node._run_finally: the run succeeded, its inputs become the cache key *)
-                  (finish (Some t) (if c_cache c then Some i else None) false,
+                  (finish (Some t) (if s_cache st then Some i else None) false,
                    Returned (Some t) (sort_calls argss))
               | _, _ =>
                   (* a row collector channel without source, or a body node without data on
@@ -401,6 +403,17 @@ Definition step := (list (string * ival) * list nat)%type.
 
 Definition do_step (c : cfg) (st : fstate) (s : step) : fstate * outcome :=
   run c (snd s) (assign_all st (fst s)).
+
+(* `node.use_cache = b` between two runs *)
+Definition set_cache (st : fstate) (b : bool) : fstate :=
+  {| s_in := s_in st; s_children := s_children st; s_cached := s_cached st; s_out := s_out st;
+     s_failed := s_failed st; s_cache := b |}.
+Definition set_cache_opt (st : fstate) (o : option bool) : fstate :=
+  match o with Some b => set_cache st b | None => st end.
+(* a step that may first re-assign use_cache *)
+Definition xstep := (option bool * step)%type.
+Definition do_xstep (c : cfg) (st : fstate) (x : xstep) : fstate * outcome :=
+  do_step c (set_cache_opt st (fst x)) (snd x).
 
 (* ================================================================================== *)
 (* Part 3: the mathematical reference                                                  *)
@@ -469,10 +482,10 @@ Definition spec_children (c : cfg) (i : inputs) : list obs :=
   build_children c (map (entry_of c i) (seq 0 (nrows c i))).
 
 (* the node after a rebuilding run on inputs i, as the property wants it *)
-Definition built (c : cfg) (i : inputs) : fstate :=
+Definition built (c : cfg) (use_cache : bool) (i : inputs) : fstate :=
   {| s_in := i; s_children := spec_children c i;
-     s_cached := if c_cache c then Some i else None;
-     s_out := Some (spec_table c i); s_failed := false |}.
+     s_cached := if use_cache then Some i else None;
+     s_out := Some (spec_table c i); s_failed := false; s_cache := use_cache |}.
 
 Definition count_kind (k : string) (ch : list obs) : nat :=
   List.length (filter (fun o => match o with OL (OS k' :: _) => String.eqb k k' | _ => false end) ch).
@@ -579,15 +592,15 @@ Definition outcome_failed (o : outcome) : bool :=
   match o with Raised _ true _ => true | _ => false end.
 
 (* the driver stops a scenario at the first run that fails while running *)
-Fixpoint run_steps (c : cfg) (st : fstate) (steps : list step) : list obs :=
+Fixpoint run_steps (c : cfg) (st : fstate) (steps : list xstep) : list obs :=
   match steps with
   | [] => []
   | s :: r =>
-      let (st', o) := do_step c st s in
+      let (st', o) := do_xstep c st s in
       obs_outcome true st' o :: (if outcome_failed o then [] else run_steps c st' r)
   end.
 
-Definition scenario (c : cfg) (steps : list step) : obs :=
+Definition scenario (c : cfg) (steps : list xstep) : obs :=
   match create c with
   | Err e => OL [OL [OS "exc"; OS (exc_class e); OS (exc_tag e)]]
   | Ok st => OL (OL [OS "created"] :: run_steps c st steps)
@@ -611,7 +624,8 @@ Definition shortcut (b : body) (zip : bool) (held : list (string * option Z))
                                 else match snd lv with
                                      | Some z => assign s (fst lv) (IZ z)
                                      | None => {| s_in := supd (fst lv) None (s_in s); s_children := s_children s;
-                                                  s_cached := s_cached s; s_out := s_out s; s_failed := s_failed s |}
+                                                  s_cached := s_cached s; s_out := s_out s; s_failed := s_failed s;
+                                                  s_cache := s_cache s |}
                                      end) held st in
         let st2 := assign_all st1 (map (fun lv : string * list Z => (fst lv, IL (snd lv))) loops) in
         let (st3, o) := run c order st2 in
@@ -684,7 +698,7 @@ Definition for_node_class (reg : registry) (q : request) : registry * res cfg :=
   end.
 
 (* the instance of whatever class came back, then the steps *)
-Definition scenario_of (r : res cfg) (steps : list step) : obs :=
+Definition scenario_of (r : res cfg) (steps : list xstep) : obs :=
   match r with
   | Err e => OL [OL [OS "exc"; OS (exc_class e); OS (exc_tag e)]]
   | Ok c => OL (OL [OS "created"] :: run_steps c (init_state c) steps)
@@ -698,11 +712,11 @@ Definition name_of (q : request) (r : res cfg) : string :=
   end.
 
 (* several for-nodes made and used one after the other in one process *)
-Fixpoint session_go (reg : registry) (qs : list (request * list step)) : list obs :=
+Fixpoint session_go (reg : registry) (qs : list (request * list xstep)) : list obs :=
   match qs with
   | [] => []
   | (q, steps) :: r =>
       let (reg', c) := for_node_class reg q in
       OL [OS (name_of q c); scenario_of c steps] :: session_go reg' r
   end.
-Definition session (qs : list (request * list step)) : obs := OL (session_go [] qs).
+Definition session (qs : list (request * list xstep)) : obs := OL (session_go [] qs).
